@@ -34,6 +34,8 @@ pub struct Ledger {
     pub zst_returned: u64,
     /// fire when the `zst_dropped` counter reaches this value
     zst_fault_at: Option<u64>,
+    /// fire on the next destruction of a default-filler value
+    filler_fault: bool,
 }
 
 static LEDGER: Mutex<Option<Ledger>> = Mutex::new(None);
@@ -115,7 +117,8 @@ impl Drop for Val {
                 )),
             }
             l.drop_log.push(id);
-            if l.fault_id == Some(id) && !l.fault_fired && !std::thread::panicking() {
+            let filler_hit = l.filler_fault && l.entries[(id - 1) as usize].filler;
+            if (l.fault_id == Some(id) || filler_hit) && !l.fault_fired && !std::thread::panicking() {
                 l.fault_fired = true;
                 l.faults_fired_total += 1;
                 true
@@ -210,6 +213,13 @@ pub fn arm_fault(id: u64) {
     })
 }
 
+pub fn arm_filler_fault() {
+    with(|l| {
+        l.filler_fault = true;
+        l.fault_fired = false;
+    })
+}
+
 pub fn arm_zst_fault(after_n_more_drops: u64) {
     with(|l| {
         l.zst_fault_at = Some(l.zst_dropped + after_n_more_drops);
@@ -223,6 +233,7 @@ pub fn disarm() -> bool {
         let f = l.fault_fired;
         l.fault_id = None;
         l.zst_fault_at = None;
+        l.filler_fault = false;
         l.fault_fired = false;
         f
     })
